@@ -19,6 +19,56 @@ pub fn run(ctx: &mut Ctx) {
     if part.is_empty() || part == "small" { small(ctx); }
     if part.is_empty() || part == "units" { units(ctx); }
     if part.is_empty() || part == "huge" { huge(ctx); }
+    if part.is_empty() || part == "fit" { fit(ctx); }
+}
+
+fn units_lo(u: usize) -> usize { if u <= 1 { 0 } else { 1usize << (3 * (u - 1)) } }
+
+// Every way a run can meet the end of a 64-unit block: the block already holds `fill` code units, the next run needs
+// `gu` units for its gap and `ru` units for its length (1..=22 each: all code lengths), and two or three short runs follow.
+// The decision "does it still fit" is made once per run, so every (fill, gu + ru) pair is a case of its own.
+fn fit(ctx: &mut Ctx) {
+    let opts = QOpts { iter_limit: 3000, ..QOpts::default() };
+    let classes: Vec<usize> = if ctx.quick() { vec![1, 2, 3, 8, 11, 20, 21, 22] } else { (1..=22).collect() };
+    let mut index = 0u64;
+    for fill in 0..64usize {
+        if fill == 1 { continue; }
+        for &gu in classes.iter() {
+            for &ru in classes.iter() {
+                index += 1;
+                if !ctx.mine(index) { continue; }
+                if gu + ru > 43 || (gu == 22 && ru == 22) { continue; }
+                if !ctx.begin_case() { continue; }
+                let mut rng = ctx.rng(0xC3_F000 + index);
+                let mut runs: Vec<(usize, usize)> = Vec::new();
+                let mut pos = 0usize;
+                let mut left = fill;
+                // `fill` units of one- and two-unit codes.
+                if left % 2 == 1 { let gap = 8 + rng.below(56); let len = 1 + rng.below(8); runs.push((pos + gap, len)); pos += gap + len; left -= 3; }
+                while left > 0 { let gap = if runs.is_empty() && rng.chance(1, 2) { 0 } else { 1 + rng.below(7) }; let len = 1 + rng.below(8); runs.push((pos + gap, len)); pos += gap + len; left -= 2; }
+                // The run under test: smallest values of its classes when they are large (so that the total stays in range).
+                let gap = if gu >= 19 { units_lo(gu) } else { std::cmp::max(1, gen::value_with_units(&mut rng, gu)) };
+                let gap = if runs.is_empty() && gu == 1 && rng.chance(1, 2) { 0 } else { std::cmp::max(gap, if gu == 1 { 1 } else { units_lo(gu) }) };
+                let lenm1 = if ru >= 19 { units_lo(ru) } else { gen::value_with_units(&mut rng, ru) };
+                let start = match pos.checked_add(gap) { Some(x) => x, None => continue };
+                let end = match start.checked_add(lenm1).and_then(|x| x.checked_add(1)) { Some(x) => x, None => continue };
+                if end > MAX_REQUIRED_LEN - (1 << 20) { continue; }
+                runs.push((start, lenm1 + 1));
+                pos = end;
+                for _ in 0..(2 + rng.below(2)) { let gap = 1 + rng.below(60); let len = 1 + rng.below(60); runs.push((pos + gap, len)); pos += gap + len; }
+                let n = pos + rng.below(3);
+                let m = RunModel::new(n, &runs);
+                let (block_starts, _, _) = simulate_blocks(&m.runs);
+                let args = run_args(&m, &block_starts, &mut rng, 60);
+                let d = [Decomp::Maximal, Decomp::Split, Decomp::SplitWithSetLen][(fill + gu + ru) % 3];
+                let rv = build(n, &m.runs, d, &mut rng);
+                check_rl(ctx, &format!("{:?}", d), rv, &m, &args, &opts, 4000);
+                ctx.count(&format!("fit.units_needed.{}", gu + ru), 1);
+                ctx.case(hash64(&[7, fill as u64, gu as u64, ru as u64]), true);
+                ctx.sample(|| format!("fit: block holds {} units, next run needs {} + {} units, {} runs in all, n={}", fill, gu, ru, m.runs.len(), n));
+            }
+        }
+    }
 }
 
 // The library documents "n + 63 > usize::MAX" style slack; lengths up to this are required to work.
@@ -61,10 +111,21 @@ pub fn build(n: usize, runs: &[(usize, usize)], d: Decomp, rng: &mut Rng) -> Res
                 choices.push((s, l, pre));
                 end = s + l;
             }
+            // Calls that must change nothing are sprinkled in between: empty runs anywhere at or past the tail, and calls
+            // the builder has to refuse (a run that would end past usize::MAX, a run that starts before the tail).
+            let noise: Vec<(u8, usize, usize)> = choices.iter().map(|_| (rng.below(8) as u8, rng.below(2000), rng.below(1 << 20))).collect();
             guard(|| {
                 let mut b = RLBuilder::new();
-                for &(s, l, pre) in choices.iter() {
+                for (k, &(s, l, pre)) in choices.iter().enumerate() {
                     if let Some(p) = pre { b.set_len(p); }
+                    let tail = b.len();
+                    match noise[k].0 {
+                        0 => { let _ = b.try_set(tail.saturating_add(1 + noise[k].1), 0); },
+                        1 => { let _ = b.try_set(tail, 0); },
+                        2 => { let start = tail.saturating_add(1 + noise[k].1); let _ = b.try_set(start, usize::MAX - start + 1 + (noise[k].2 % std::cmp::max(1, start))); },
+                        3 => { if tail > 0 { let _ = b.try_set(noise[k].1 % tail, 1 + noise[k].2 % 5); } },
+                        _ => {},
+                    }
                     b.try_set(s, l)?;
                 }
                 b.set_len(n);
